@@ -119,6 +119,13 @@ Theorem C13_export_dirs : forall (H : bytes -> bytes) ord f limit t m i es,
 Proof. exact export_dirs. Qed.
 Print Assumptions C13_export_dirs.
 
+(* [prune_gen f] in the statement above is the physical pruning of the filter f. *)
+Theorem C13_prune_gen_instances : forall t,
+  prune_gen FAll t = t /\ prune_gen FEmpty t = prune_empty t /\
+  forall ns cs0, prune_gen (FNamed ns cs0) t = prune_named ns cs0 t.
+Proof. exact prune_gen_instances. Qed.
+Print Assumptions C13_prune_gen_instances.
+
 (* Exported contents: the data is the bytes of a file of the tree (the text of
    a link; nothing for a special file), not above the limit, and hashes to the
    content's id. *)
